@@ -1165,7 +1165,7 @@ PROPS = {
             'rule': 'non-trivial = request in which a fatigue bias fired; distinct by request'},
     'C07': {'level_text': "Decision.tla (abstract pipeline: criteria / value cover / parameter cover / split / touched values) model-checked for all bias lists up to length 2-3 with Coherent, SplitStable, Persistence; every emitted list x 7 methods plus seeded random pipelines (length <= 4, all options) and the repository's examples run through the library with hook H1; TLC validates after every bias: values and parameters cover exactly the current criteria (probe Evaluate/RankCriteriaAscending on a copy), split unchanged, criteria delta = reported delta, untouched values persist, status 200", 'level_note': 'coherence of private parameter types is observed operationally (probe) and through reflective dumps; a bias removing every criterion is outside the domain', 'families': ['pipeline'], 'nontrivial': nt_pipeline,
             'rule': 'non-trivial = request in which at least one bias fired; distinct by request'},
-    'C06': {'level_text': 'dominance, identical-alternatives, listing-order and weight-scaling relations evaluated by TLC on real ELECTRE III runs (each instance with a permuted twin and twins with all k x2 and x1/4); the same lemmas (CredOfDominator, DominanceLemma, IdenticalLemma, ScaleLemma) are invariants of MC_ElectreE on the definition; a screened family runs 100 000 (thorough: 1 000 000) instances with dominated neighbours (shadow alternatives one or two steps worse, differences equal to thresholds) through the real code, a Go-side pre-check selects the suspicious ones and TLC judges those plus an even sample', 'level_note': 'relations are comparison-only (float-safe); a change that alters indices without breaking these relations is reported by C05, not here; the Go-side pre-check of the screened family only selects cases, every verdict is TLC\'s', 'families': ['electre', 'electre_dom'], 'nontrivial': nt_electre2,
+    'C06': {'level_text': 'dominance, identical-alternatives, listing-order and weight-scaling relations evaluated by TLC on real ELECTRE III runs (each instance with a permuted twin and twins with all k x2 and x1/4); the same lemmas (CredOfDominator, DominanceLemma, IdenticalLemma, ScaleLemma) are invariants of MC_ElectreE on the definition; twins with every k x 2^-30 .. 2^10 and near-twin values (2^-44 apart) in four listing orders; a screened family runs 100 000 (thorough: 1 000 000) instances with dominated neighbours (shadow alternatives one or two steps worse, differences equal to thresholds) through the real code, a Go-side pre-check selects the suspicious ones and TLC judges those plus an even sample', 'level_note': 'relations are comparison-only (float-safe); a change that alters indices without breaking these relations is reported by C05, not here; the Go-side pre-check of the screened family only selects cases, every verdict is TLC\'s', 'families': ['electre', 'electre_dom'], 'nontrivial': nt_electre2,
             'rule': 'non-trivial = accepted ELECTRE III request whose two preorders are not both a single class; distinct by request'},
     'C05': {'level_text': 'exact-rational reference model Electre!CredMatrix + Electre!DistilP: stage 2 on ALL 3x3 credibility matrices over a quarter grid and random 4..6-alternative matrices over sixteenths through RankAscending/RankDescending/EvaluateRanking; stage 1 (credibility matrix via hook H2) and end-to-end indices/links on TLC-enumerated and random threshold configurations through MakeDecision; MC_Electre/MC_ElectreE check classes consecutive, progress, cut levels never rise, stepwise = recursive definition', 'level_note': "instances whose exact comparison ties involve non-dyadic numbers are flagged fragile by the spec and excluded from index equality (float arithmetic); constant thresholds only (the property's domain)", 'families': ['electre_s2', 'electre'], 'nontrivial': nt_electre2,
             'rule': 'non-trivial = instance whose two preorders are not both a single class; distinct by instance'},
@@ -1179,8 +1179,8 @@ PROPS = {
             'rule': 'non-trivial = accepted majority request with >= 3 ranked alternatives and at least one drawn comparison; distinct by request'},
     'C01': {'level_text': 'Ranking!WellFormed is an invariant of the design models (MC_Majority, MC_AspectElim, MC_Satisfaction, MC_Utility, MC_ElectreE) and is evaluated by TLC on the real response of every replayed / random / pipeline case of all seven methods (all tie patterns up to 6-7 alternatives for the majority heuristic, all draw policies, current choice inside/outside choseToMake, bias sequences)', 'level_note': 'bounded exhaustive tie patterns + seeded random instances up to 8 alternatives; only the response shape is judged (contract), no reference model needed', 'families': ['utility', 'majority', 'aspect', 'satisfaction', 'electre', 'pipeline'], 'cap': {'quick': 1200}, 'nontrivial': nt_ties,
             'rule': 'cases = TLC-enumerated instances + seeded random instances; non-trivial = accepted request whose result has >= 2 entries; distinct by request'},
-    'C03': {'level_text': 'reference equality with Utility!WS2 / OWA2 / Choquet2 evaluated by TLC on the criteria values finally evaluated and the post-bias parameters recorded by the hook, on exact dyadic grids (all capacity tables over {0,1/4,1/2,1} for 2 criteria, {0,1/2,1} for 3), also after omission / reversal', 'level_note': "exact grids only (float accuracy on arbitrary reals is outside this technique); weightedSum's missing weight is a recorded known finding matched by the named deviation WSUnweighted", 'families': ['utility', 'pipeline'], 'nontrivial': nt_formula,
+    'C03': {'level_text': 'reference equality with Utility!WS2 / OWA2 / Choquet2 evaluated by TLC on the criteria values finally evaluated and the post-bias parameters recorded by the hook, on exact dyadic grids (all capacity tables over {0,1/4,1/2,1} for 2 criteria, {0,1/2,1} for 3), also after omission / reversal; one case in six at magnitude 1e11..1e13 (values x 2^38 scaled back exactly)', 'level_note': "exact grids only (float accuracy on arbitrary reals is outside this technique); weightedSum's missing weight is a recorded known finding matched by the named deviation WSUnweighted", 'families': ['utility', 'pipeline'], 'nontrivial': nt_formula,
             'rule': 'non-trivial = accepted utility request with >= 2 criteria (weights/capacities matter); distinct by request'},
-    'C04': {'level_text': 'Ranking!VOrder / VLinks (order by value then id, links = ties + next lower level) evaluated by TLC on the reported utilities of every replayed case; MC_Utility checks on the design that following these links reaches exactly the alternatives not valued higher (ReachTheorem) for all tie patterns up to 6 alternatives; listing-order twins must agree per alternative; values one 1e-8 step apart (unit 1e8) and sub-step nudges', 'level_note': 'comparison-only contract on the reported values (independent of C03); exhaustive tie patterns to n=4 (quick) / 6 (thorough), random to n=8', 'families': ['utility', 'pipeline'], 'cap': {'quick': 1500}, 'nontrivial': nt_ties,
+    'C04': {'level_text': 'Ranking!VOrder / VLinks (order by value then id, links = ties + next lower level) evaluated by TLC on the reported utilities of every replayed case; MC_Utility checks on the design that following these links reaches exactly the alternatives not valued higher (ReachTheorem) for all tie patterns up to 6 alternatives; listing-order twins must agree per alternative; values one 1e-8 step apart (unit 1e8) and sub-step nudges; one case in six at magnitude 1e11..1e13 (criterion values x 2^38, scaled back by the harness); listing-order twins also through concealment / mixing / omission / reversal (pipeline family)', 'level_note': 'comparison-only contract on the reported values (independent of C03); exhaustive tie patterns to n=4 (quick) / 6 (thorough), random to n=8', 'families': ['utility', 'pipeline'], 'cap': {'quick': 1500}, 'nontrivial': nt_ties,
             'rule': 'non-trivial = accepted utility request with >= 2 ranked alternatives; distinct by request'},
 }
